@@ -25,7 +25,7 @@ func init() {
 // ------------------------------------------------------------------ observers
 
 // input: the text as lowercase hex.  Output: the rendered tree "(F ...)", the rendered error
-// chain "ERR (code s e)...", or "PANIC:<msg>".
+// chain "ERR (code s e @line:col)..." (line:col = Range.Location() of the error), or "PANIC:<msg>".
 func obsC07Parse(in string) (res string) {
 	defer func() {
 		if r := recover(); r != nil {
@@ -58,13 +58,14 @@ func c07RenderErr(err error) string {
 	for err != nil {
 		e, ok := err.(directives.Error)
 		if !ok {
-			sb.WriteString(" (other 0 0)")
+			sb.WriteString(" (other 0 0 @1:1)")
 			break
 		}
-		fmt.Fprintf(&sb, " (%s %d %d)", c07Code(e.Message), e.Start, e.End)
+		// the RENDERED position: line:col of Range.Location(), what Error() prints after the path
+		loc := e.Range.Location()
+		fmt.Fprintf(&sb, " (%s %d %d @%d:%d)", c07Code(e.Message), e.Start, e.End, loc.Line, loc.Col)
 		// exercise the rendering code of the error; a panic here is an observation
 		_ = e.Error()
-		loc := e.Range.Location()
 		_ = e.Range.Context(1)
 		_ = e.Range.Extract()
 		if loc.Line < 1 || loc.Col < 1 {
